@@ -235,6 +235,48 @@ MkOp(g, d, q, p, h, c, b, cf) ==
   Op(g, d, MkParams("path", nId, nKey, p) \o MkParams("query", nQ1, nQ2, q) \o MkParams("header", nH1, nH2, h) \o MkParams("cookie", nC1, nC1, c),
      MkBodies(d, b), cf)
 OpDialects == IF Family = "c03o" THEN (IF Rich THEN AllD ELSE {"3.0", "2.0"}) ELSE (IF Rich THEN AllD ELSE {"3.0"})
+(* Keyword group: for every keyword of the oracle's alphabet one leaf in which that keyword is the discriminating constraint at   *)
+(* the TOP level of the schema, placed in every location (path / query / header / cookie / body) of every dialect that can     *)
+(* express it.  Includes the explicit spelling of defaults (nullable: false), top level and nested.                              *)
+KwLeaves == << Ty("integer"),                                                                      \*  1 type
+               Ty("string") @@ [enum |-> <<Sv(<<97>>), Sv(<<98>>)>>],                            \*  2 enum
+               Ty("string") @@ [const |-> Sv(<<97>>)],                                           \*  3 const (3.1)
+               Ty("integer") @@ [minimum |-> 3],                                                 \*  4 minimum
+               Ty("integer") @@ [maximum |-> 3],                                                 \*  5 maximum
+               Ty("integer") @@ [minimum |-> 0, exclMin |-> TRUE, maximum |-> 5],                \*  6 exclusiveMinimum
+               Ty("integer") @@ [maximum |-> 0, exclMax |-> TRUE, minimum |-> -5],               \*  7 exclusiveMaximum
+               Ty("integer") @@ [multipleOf |-> 2, minimum |-> 0, maximum |-> 9],                \*  8 multipleOf
+               Ty("string") @@ [minLength |-> 2],                                                \*  9 minLength
+               Ty("string") @@ [maxLength |-> 1],                                                \* 10 maxLength
+               Ty("string") @@ [pattern |-> Patterns[1]],                                        \* 11 pattern
+               Ty("string") @@ [format |-> "date"],                                              \* 12 format
+               Ty("array") @@ [items |-> Ty("integer")],                                         \* 13 items
+               Ty("array") @@ [items |-> Ty("integer"), minItems |-> 2],                         \* 14 minItems
+               Ty("array") @@ [items |-> Ty("integer"), maxItems |-> 1],                         \* 15 maxItems
+               Ty("array") @@ [items |-> Ty("integer") @@ [minimum |-> 0, maximum |-> 3], uniqueItems |-> TRUE, minItems |-> 2],   \* 16 uniqueItems
+               Ty("integer") @@ [minimum |-> 0, maximum |-> 3, not |-> S0 @@ [enum |-> <<I(0)>>]],   \* 17 not
+               Ty("integer") @@ [allOf |-> <<S0 @@ [maximum |-> 3]>>],                           \* 18 allOf
+               Ty("integer") @@ [anyOf |-> <<S0 @@ [maximum |-> 0], S0 @@ [minimum |-> 5]>>],    \* 19 anyOf
+               Ty("integer") @@ [oneOf |-> <<S0 @@ [maximum |-> 0], S0 @@ [minimum |-> 5]>>],    \* 20 oneOf
+               Nullable(Ty("integer")),                                                          \* 21 nullable: true
+               Ty("integer") @@ [nullable |-> FALSE],                                            \* 22 nullable: false (the default, spelled out)
+               Ty("boolean"),                                                                    \* 23 type boolean
+               Ty("number") @@ [minimum |-> 0, maximum |-> 1],                                   \* 24 type number
+               Ty("string") @@ [enum |-> <<Sv(<<97>>), Sv(<<98>>)>>, not |-> S0 @@ [enum |-> <<Sv(<<97>>)>>]],   \* 25 enum + not
+               Ty("object") @@ [props |-> [k |-> <<ka>>, v |-> <<Ty("integer") @@ [nullable |-> FALSE]>>], required |-> <<ka>>],   \* 26 nested nullable: false
+               Ty("array") @@ [items |-> Ty("integer") @@ [nullable |-> FALSE], minItems |-> 1],  \* 27 items nullable: false
+               Ty("object") @@ [props |-> [k |-> <<ka>>, v |-> <<Ty("string")>>], addProps |-> [sk |-> "false"]],   \* 28 additionalProperties
+               Ty("object") @@ [props |-> [k |-> <<ka>>, v |-> <<Ty("integer")>>], minProperties |-> 1],            \* 29 minProperties
+               Ty("object") @@ [props |-> [k |-> <<ka, kb>>, v |-> <<Ty("integer"), Ty("integer")>>], maxProperties |-> 1],   \* 30 maxProperties
+               Ty("object") @@ [required |-> <<ka>>] >>                                          \* 31 required
+KwExpressible(d, loc, k) ==          \* can dialect d write keyword leaf k at location loc?
+  /\ (k = 3 => d = "3.1") /\ (k \in {22, 26, 27} => d # "3.1")
+  /\ (k \in {17, 19, 20, 25} => d # "2.0") /\ (k = 18 => (d # "2.0" \/ loc = "body"))
+  /\ (k >= 26 => loc = "body") /\ (loc = "cookie" => d # "2.0")
+KwQuickPairs == {<<"3.1", 3>>, <<"3.1", 17>>, <<"2.0", 22>>, <<"2.0", 2>>}
+KwLocName(loc) == CASE loc = "path" -> nId [] loc = "query" -> nQ1 [] loc = "header" -> nH1 [] OTHER -> nC1
+KwOp(d, loc, k) == IF loc = "body" THEN Op("keyword", d, <<>>, <<[media |-> MJson, schema |-> KwLeaves[k], required |-> TRUE]>>, Cfg0)
+                   ELSE Op("keyword", d, <<[loc |-> loc, name |-> KwLocName(loc), required |-> TRUE, schema |-> KwLeaves[k]]>>, <<>>, Cfg0)
 PairLeaves == IF Rich THEN {1, 2, 3, 5, 6, 7, 11, 13, 14} ELSE {1, 2, 6, 13}      \* parameter leaves used in the cross-group pairs
 (* exhaustive inside a location group, pairwise across groups *)
 IsOpDesc(x) ==
@@ -253,6 +295,9 @@ IsOpDesc(x) ==
         x = MkOp("header+cookie", d, None3, None3, h, c, None3, Cfg0)
   \/ Family = "c03o" /\ \E d \in OpDialects, it \in Items \ {ItemInline}, q \in {None3, <<2, 1, 0>>, <<1, 6, 0>>}, b \in {None3, <<2, 1, 0>>} :   \* path-item shapes
         x = [MkOp("path-item", d, q, None3, None3, None3, b, Cfg0) EXCEPT !.item = it]
+  \/ Family = "c01" /\ \E d \in AllD, loc \in {"path", "query", "header", "cookie", "body"}, k \in DOMAIN KwLeaves :
+        /\ KwExpressible(d, loc, k) /\ (Rich \/ d = "3.0" \/ <<d, k>> \in KwQuickPairs)
+        /\ x = KwOp(d, loc, k)
   \/ Family # "c03o" /\ \E a \in {2, 6}, cf \in Cfgs : x = MkOp("config", "3.0", <<2, a, 0>>, None3, <<2, a, 0>>, None3, <<2, 1, 0>>, cf)
 
 (* Histories (C03): the coverage cases of operation A, then of operation B, generated in ONE process (labels are objects that *)
